@@ -201,7 +201,9 @@ def install(w):
                 "step_post": [f"implies(len(value_name) > 0, {E} == {E0} + " + NAME1.format("value_name") + ")"]}}
         if m == "validate_directives":
             extra["loops"] = {
-                1: {"step_post": [
+                # every directive of the schema (the specified ones included: a schema may redefine
+                # them) goes through the checks: asserted on every way out of the iteration
+                1: {"iter_post": [
                     f"{E} >= {E0} + " + NAME1.format("directive.name") + " + ite(len(directive.locations) == 0, 1, 0)"]},
                 2: {"invariant": [
                     f"{E} >= {E0} + " + NAME1.format("directive.name") + " + ite(len(directive.locations) == 0, 1, 0)"],
